@@ -8,6 +8,7 @@ import hashlib
 import json
 import os
 import sys
+import threading
 import time
 
 from . import build
@@ -37,6 +38,7 @@ class Check:
         self.notes = []
         self._distinct = set()
         self.tot = {}
+        self._lock = threading.RLock()
         self.known = [k for k in load_known() if k.get('property') == prop]
 
     # ---- observations -------------------------------------------------
@@ -68,15 +70,24 @@ class Check:
         from . import run as R
         exe = build.harness(harness, flavour, extra)
         res, dt = R.run_shards(exe, args, nshards, cases, self.seed, env=env, wall=wall)
-        self.add_results(res, harness, flavour)
         s = R.merge_stats(res)
-        R._merge(self.tot, s)
-        k = 0
-        for r in res:
-            if r.samples and k < nsamples:
-                self.coverage['samples'].append(r.samples[len(r.samples) // 2])
-                k += 1
+        with self._lock:
+            self.add_results(res, harness, flavour)
+            R._merge(self.tot, s)
+            k = 0
+            for r in res:
+                if r.samples and k < nsamples:
+                    self.coverage['samples'].append(r.samples[len(r.samples) // 2])
+                    k += 1
         return s
+
+    def run_parts(self, parts, workers=8):
+        """parts: list of kwargs dicts for run_part, executed concurrently (builds are done first, serially)."""
+        from concurrent.futures import ThreadPoolExecutor
+        for p in parts:
+            build.harness(p['harness'], p['flavour'], p.get('extra', ()))
+        with ThreadPoolExecutor(workers) as ex:
+            return list(ex.map(lambda kw: self.run_part(**kw), parts))
 
     def nontrivial(self, ident):
         self._distinct.add(ident if isinstance(ident, (str, bytes, int)) else repr(ident))
